@@ -334,6 +334,10 @@ pub fn corpus(dir: &str, comp: &str) -> Vec<History> {
     v
 }
 
+pub fn op_desc_pub(fs: &SimFs, op: &FsOp) -> String {
+    op_desc(fs, op)
+}
+
 fn op_desc(fs: &SimFs, op: &FsOp) -> String {
     match op {
         FsOp::Write(ino, _, d) => format!("write {} bytes to {}", d.len(), fs.inode_path(*ino).map(|p| p.to_string_lossy().to_string()).unwrap_or_default()),
